@@ -78,6 +78,41 @@ def build(ctx):
                 vio.append(z3.And(z3.And(oa.state.pc + ob.state.pc), z3.UGT(oa.value.items[fi_].e, ob.value.items[fi_].e)))
         ctx.prop('scaled/%s/non-decreasing-in-max_width' % fname, [z3.ULE(a, b), z3.UGE(a, 20), z3.ULE(b, hi)], z3.Or(vio), [a, b], rp, twin=False)
 
+    # ------------------------------------------------------------------ 1b. clamping and a later max_width from another source
+    # a file sets max_width = m1 and a width w (user value v); the command line then sets max_width = m2: the effective options are
+    # {max_width = m2, w = v}, so the width in force must be min(v, m2), as if both had been given together
+    KF_CLAMP = 'C14/heuristics/clamp-overwrites-the-user-value-so-a-later-larger-max_width-does-not-restore-it'
+    lay_ = config_layout(eng)
+    for w in WIDTHS:
+        st = State()
+        cfgref, cv = make_config(eng, st)
+        m1 = cv['max_width'].e
+        v = cv[w].e
+        m2 = z3.BitVec('max_width_from_the_command_line', 64)
+        st.assume(z3.And(z3.UGE(m1, 20), z3.ULE(m1, hi), z3.UGE(m2, 20), z3.ULE(m2, hi), z3.ULT(v, 1 << 32), config_was_set(eng, st, cfgref, w)))
+        for other in WIDTHS:
+            if other != w:
+                st.assume(z3.Not(config_was_set(eng, st, cfgref, other)))
+        viol = []
+        for o1 in ctx.check_outcomes(eng.run(sh, [cfgref], st), 'set_heuristics#1'):
+            if o1.kind != 'ret':
+                continue
+            s1 = o1.state
+            cur = eng.read_ref(s1, cfgref)
+            idx = lay_['max_width'][0]
+            ent = cur.items[idx]
+            items = list(cur.items)
+            items[idx] = Tup(list(ent.items[:2]) + [BV(m2, 'usize')] + list(ent.items[3:]), ent.name)
+            eng.write_ref(s1, cfgref, Tup(items, cur.name))
+            for o2 in ctx.check_outcomes(eng.run(sh, [cfgref], s1), 'set_heuristics#2'):
+                if o2.kind != 'ret':
+                    continue
+                after = config_value(eng, o2.state, cfgref, w).e
+                pc = z3.And(o2.state.pc) if o2.state.pc else z3.BoolVal(True)
+                viol.append(z3.And(pc, after != z3.If(z3.UGT(v, m2), m2, v)))
+        ctx.prop('heuristics/%s/file-then-command-line-max_width=>as-if-given-together' % w, [], z3.Or(viol), [m1, m2, v], rp, twin=False,
+                 classes=[(KF_CLAMP, z3.And(z3.UGT(v, m1), z3.UGT(m2, m1)))], hint=[z3.ULT(m1, 200), z3.ULT(m2, 200), z3.ULT(v, 200)])
+
     # ------------------------------------------------------------------ 2. style-edition precedence
     dps = eng.find('default_for_possible_style_edition', self_ty='Config', file='src/config/mod.rs')
     se_v = eng.enum_variants('StyleEdition')
@@ -390,6 +425,20 @@ def cli_findings():
         # 2015/2018/2021 share all defaults, C09), so an unset style_edition under --edition 2018 prints as 2015: compare classes
         if cls(vals.get('style_edition')) != cls(want):
             found.setdefault('other', []).append('%s gives style_edition=%s, expected %s' % (' '.join(args), vals.get('style_edition'), want))
+    # a width and max_width in the file, a larger max_width on the command line
+    open(os.path.join(d, 'rustfmt.toml'), 'w').write('max_width = 50\nchain_width = 80\n')
+    vals, r = print_config(['--config', 'max_width=120', '--print-config', 'current', '.'], cwd=d, env_home=d)
+    if vals.get('chain_width') != '80':
+        found.setdefault('C14/heuristics/clamp-overwrites-the-user-value-so-a-later-larger-max_width-does-not-restore-it', []).append(
+            'file max_width=50 chain_width=80, --config max_width=120: chain_width=%s (given together: 80)' % vals.get('chain_width'))
+    vals, r = print_config(['--config', 'max_width=60', '--print-config', 'current', '.'], cwd=d, env_home=d)
+    if vals.get('chain_width') != '60':
+        found.setdefault('C14/heuristics/clamp-overwrites-the-user-value-so-a-later-larger-max_width-does-not-restore-it', []).append(
+            'file max_width=50 chain_width=80, --config max_width=60: chain_width=%s (given together: 60)' % vals.get('chain_width'))
+    vals, r = print_config(['--config', 'max_width=40', '--print-config', 'current', '.'], cwd=d, env_home=d)
+    if vals.get('chain_width') != '40':
+        found.setdefault('other', []).append('file max_width=50 chain_width=80, --config max_width=40: chain_width=%s (expected 40)' % vals.get('chain_width'))
+    os.remove(os.path.join(d, 'rustfmt.toml'))
     # a file that sets edition, a command line that sets another one across the 2021/2024 boundary, nothing else set
     for file_ed, cli_args, want in (('2021', ['--edition', '2024'], '2024'), ('2024', ['--edition', '2018'], '2015'), ('2021', ['--config', 'edition=2024'], '2024'),
                                     ('2024', [], '2024'), ('2021', ['--style-edition', '2024'], '2024')):
